@@ -10,7 +10,9 @@ from audiolazy import ZFilter, LinearFilter, CascadeFilter, ParallelFilter, z, P
 ID = "C05"
 RULE = ("cases = pairs/triples of causal rational filters with small integer coefficients "
         "(orders 0..3), integer or dyadic scalars, exponents 0..4 (and 5..16, either sign, on 1..3-term filters), delays 0..5, inputs of exact "
-        "rationals, and expression trees over + - * / ** and substitution (depth <= 3); oracle = "
+        "rationals, and expression trees over + - * / ** and substitution (depth <= 3); one clause widens the "
+        "coefficients to ints beyond 2**53, plain (dyadic and other) Fractions - also as leading coefficient of a divisor - "
+        "and pairs of exact coefficients that nearly but not exactly cancel in f+g, f-g, f+c; oracle = "
         "an independent rational-function arithmetic on (numerator, denominator) dicts of "
         "Fractions (equality by cross-multiplication) and diffeq_ref of the expected rational "
         "function for outputs, plus the identities between the library's own two sides; "
@@ -18,6 +20,9 @@ RULE = ("cases = pairs/triples of causal rational filters with small integer coe
         "distinct case hash")
 ASSUMPTIONS = [
   "coefficients are ints (every derived coefficient prints exactly); samples are Q; zero value Q(0)",
+  "wide_coefficients: polynomials are compared for any exact coefficient; outputs are compared only for filters all of "
+  "whose coefficients print exactly into the generated sample expression (ints of any size, floats, Fractions p/q "
+  "whose quotient is a double - e.g. dyadic ones); a Fraction such as 1/3 becomes the double 0.333.. there",
   "scalars used as divisors are powers of two (1/c is computed by the library in floating point)",
   "equal rational functions give equal outputs from rest (zero initial state), whatever common factors they carry",
   "== on filters is structural (numerator and denominator polynomials); the property only asks for ==/!=/hash consistency",
@@ -439,6 +444,219 @@ def run_longf(c):
   return {"nontrivial": True, "labels": ["recursive f" if len(fa) > 1 else "FIR f"]}
 
 
+# ---------------------------------------------------------------- wide exact coefficients
+# Exact coefficients are not only small ints: big ints (beyond 2**53), plain Fractions and pairs of
+# coefficients that nearly - but not exactly - cancel are exact too.  Polynomials are compared for all of
+# them; OUTPUTS are compared whenever every coefficient of the filter that is run prints exactly into the
+# generated sample expression (ints, floats, Fractions p/q whose quotient p/q is a double, e.g. dyadic ones):
+# for those the exact difference equation is what any correct implementation yields on Q samples.
+BIGS = [10 ** 17, 2 ** 60, 7 * 10 ** 17, 2 ** 53, 10 ** 30, 3 * 2 ** 64 + 1, 10 ** 17, 2 ** 53]
+TINY = [F(1, 10 ** 18), F(1, 2 ** 70), F(1, 10 ** 30), F(1, 3 * 10 ** 20)]
+WIDE_KINDS = ["bigint", "dyadic", "nearfrac", "bigint", "dyadic", "nearfrac", "dyadic"]
+_small = st.integers(-3, 3)
+_nzsmall = _small.filter(lambda v: v != 0)
+_odd = st.sampled_from([1, -1, 3, -3, 5, 7, -5, -7])
+_dy_frac = st.tuples(_odd, st.sampled_from([2, 2, 4, 8])).map(lambda t: F(t[0], t[1]))    # never an integer
+_dy = st.one_of(_dy_frac, _dy_frac, _small.map(F), _small)
+_dy_nz = st.one_of(_dy_frac, _dy_frac, _dy_frac, _nzsmall.map(F), _nzsmall)
+_modes = st.sampled_from(["near", "near", "near", "indep", "small", "zero"])
+
+
+def _den_pair(lead, tail_el):
+  tail = st.lists(tail_el, max_size=2)
+  one = st.tuples(lead, tail).map(lambda t: [t[0]] + t[1])
+  # the same denominator (sums take the short route), the same leading coefficient only, or unrelated ones
+  return st.one_of(one.map(lambda a: (a, list(a))), st.tuples(lead, tail, tail).map(lambda t: ([t[0]] + t[1], [t[0]] + t[2])),
+                   st.tuples(one, one))
+
+
+def _wide_kind(kind):
+  x = st.one_of(st.lists(qv, min_size=3, max_size=8), st.lists(qv, max_size=8))
+  if kind == "dyadic":
+    num = lambda lead: st.tuples(lead, st.lists(_dy, max_size=3)).map(lambda t: [t[0]] + t[1])
+    return st.fixed_dictionaries(dict(
+      kind=st.just(kind), fb=num(_dy), gb=num(_dy_nz), dens=_den_pair(st.one_of(_nzsmall, _nzsmall, _dy_frac), _dy),
+      c=st.one_of(_small, _dy_frac), x=x)).map(
+        lambda d: dict(kind=kind, fb=d["fb"], fa=d["dens"][0], gb=d["gb"], ga=d["dens"][1], c=d["c"], x=d["x"]))
+  n = st.integers(1, 4)
+  per = lambda el: st.lists(el, min_size=4, max_size=4)
+  base = dict(n=n, sign=st.sampled_from([1, -1]), modes=per(_modes), delta=per(_small), r=per(_small),
+              m=per(_small), m2=per(_small), x=x, cmode=st.sampled_from(["small", "small", "big", "cancel", "cancel"]),
+              csmall=_small)
+  if kind == "bigint":
+    base.update(big=st.sampled_from(BIGS), dens=_den_pair(_nzsmall, _small))
+
+    def build(d):
+      k, big, s = d["n"], d["big"], d["sign"]
+      fb, gb = [], []
+      for i in range(k):
+        m = d["m"][i] or (1 if i == 0 else 0)
+        fv = m * big + d["r"][i] if m else d["r"][i]
+        mode = d["modes"][i]
+        gv = (s * fv + d["delta"][i] if mode == "near" else d["m2"][i] * big + d["delta"][i] if mode == "indep"
+              else d["delta"][i] if mode == "small" else 0)
+        fb.append(fv)
+        gb.append(gv)
+      if gb[0] == 0:
+        gb[0] = s * fb[0] + 1
+      fa, ga = d["dens"]
+      cc = (d["csmall"] if d["cmode"] == "small" else big + d["csmall"] if d["cmode"] == "big"
+            else (fb[0] if fa[0] == -1 else -fb[0]) + (d["csmall"] or 1))
+      return dict(kind=kind, fb=fb, fa=list(fa), gb=gb, ga=list(ga), c=cc, x=d["x"])
+    return st.fixed_dictionaries(base).map(build)
+  # nearfrac: rationals that differ by a tiny exact amount
+  co = st.fractions(min_value=-3, max_value=3, max_denominator=7)
+  base.update(tiny=st.sampled_from(TINY), q=per(co), q2=per(co),
+              dens=_den_pair(st.one_of(_nzsmall, co.filter(lambda v: v != 0)), st.one_of(_small, co)))
+
+  def build(d):
+    k, tiny, s = d["n"], d["tiny"], d["sign"]
+    fb, gb = [], []
+    for i in range(k):
+      q = d["q"][i] if (d["q"][i] or i) else F(1, 3)
+      mode = d["modes"][i]
+      fv = q + d["r"][i] * tiny
+      gv = (s * q + d["delta"][i] * tiny if mode == "near" else d["q2"][i] if mode == "indep"
+            else F(d["delta"][i]) if mode == "small" else F(0))
+      fb.append(fv)
+      gb.append(gv)
+    if gb[0] == 0:
+      gb[0] = s * fb[0] + tiny
+    fa, ga = d["dens"]
+    cc = (d["csmall"] if d["cmode"] == "small" else tiny.denominator if d["cmode"] == "big"
+          else (fb[0] if fa[0] == -1 else -fb[0]) + (d["csmall"] or 1) * tiny)
+    return dict(kind=kind, fb=fb, fa=list(fa), gb=gb, ga=list(ga), c=cc, x=d["x"])
+  return st.fixed_dictionaries(base).map(build)
+
+
+def strat_wide(tier):
+  return st.sampled_from(WIDE_KINDS).flatmap(_wide_kind)
+
+
+def prints_exactly(filt):
+  """Every coefficient is written into the generated sample expression without loss: ints and floats are,
+  a Fraction p/q is when the double p/q is that rational.  A filter list runs its members, so they all have to."""
+  if isinstance(filt, (CascadeFilter, ParallelFilter)):
+    return all(prints_exactly(member) for member in filt)
+  for _, v in list(filt.numpoly.terms()) + list(filt.denpoly.terms()):
+    if isinstance(v, bool) or isinstance(v, int) or isinstance(v, float):
+      continue
+    if isinstance(v, F):
+      try:
+        if F(v.numerator / v.denominator) == v:
+          continue
+      except OverflowError:
+        pass
+    return False
+  return True
+
+
+def near_cancel(p, q):
+  """Some power holds two non-zero coefficients whose sum is non-zero yet below 2**-52 of the larger one."""
+  for k, a in p.items():
+    b = q.get(k, 0)
+    if a and b and a + b != 0 and abs(a + b) * 2 ** 52 <= max(abs(a), abs(b)):
+      return True
+  return False
+
+
+def run_wide(c):
+  """Sums, differences, products, quotients, cascades and parallels of two filters whose exact coefficients are
+  big ints, plain (dyadic) Fractions or nearly cancelling pairs: polynomials always, outputs when printed exactly."""
+  fb, fa, gb, ga, x, cc = list(c["fb"]), list(c["fa"]), list(c["gb"]), list(c["ga"]), c["x"], c["c"]
+  f = lambda: ZFilter(list(fb), list(fa))
+  g = lambda: ZFilter(list(gb), list(ga))
+  F_, G_, C_ = RF.lists(fb, fa), RF.lists(gb, ga), RF.const(cc)
+  ran = [0]
+
+  def out_of(filt):
+    return run_filt(filt, x) if prints_exactly(filt) else None
+
+  def chk(name, real, model, composed=None):
+    if not isinstance(real, (ZFilter, CascadeFilter, ParallelFilter)):
+      raise Violation("%s is a %s" % (name, type(real).__name__))
+    expect_same(real, model, "%s (f=%r/%r g=%r/%r c=%r)" % (name, fb, fa, gb, ga, cc))
+    if not prints_exactly(real):
+      return None
+    got = expect_out(real, model, x, "%s (f=%r/%r g=%r/%r c=%r)" % (name, fb, fa, gb, ga, cc))
+    ran[0] += 1
+    if composed is not None and got is not None and got != composed:
+      raise Violation("%s: composite output %r != composition of outputs %r (f=%r/%r g=%r/%r c=%r x=%r)"
+                      % (name, got, composed, fb, fa, gb, ga, cc, x))
+    return got
+
+  fx, gx = chk("f", f(), F_), chk("g", g(), G_)
+  both = fx is not None and gx is not None
+  zipped = lambda op: [op(p, q) for p, q in zip(fx, gx)] if both else None
+  chk("(f+g)(x)", f() + g(), F_ + G_, zipped(lambda p, q: p + q))
+  chk("(g+f)(x)", g() + f(), F_ + G_, zipped(lambda p, q: p + q))
+  chk("(f-g)(x)", f() - g(), F_ - G_, zipped(lambda p, q: p - q))
+  chk("(g-f)(x)", g() - f(), G_ - F_, zipped(lambda p, q: q - p))
+  chk("(f+(-g))(x)", f() + (-g()), F_ - G_, zipped(lambda p, q: p - q))
+  chk("((f+g)-g)(x)", (f() + g()) - g(), F_, fx)
+  chk("((f-g)+g)(x)", (f() - g()) + g(), F_, fx)
+  chk("(f+c)(x)", f() + cc, F_ + C_, [p + cc * v for p, v in zip(fx, x)] if fx is not None else None)
+  chk("(c-f)(x)", cc - f(), C_ - F_, [cc * v - p for p, v in zip(fx, x)] if fx is not None else None)
+  chk("(c*f)(x)", cc * f(), C_ * F_, [cc * p for p in fx] if fx is not None else None)
+  lhs, rhs = cc * (f() - g()), cc * f() - cc * g()
+  chk("(c*(f-g))(x)", lhs, C_ * (F_ - G_), zipped(lambda p, q: cc * (p - q)))
+  chk("(c*f-c*g)(x)", rhs, C_ * (F_ - G_), zipped(lambda p, q: cc * (p - q)))
+  if not (lhs.numpoly * rhs.denpoly == rhs.numpoly * lhs.denpoly):
+    raise Violation("c*(f-g) = (%r)/(%r) but c*f-c*g = (%r)/(%r) (f=%r/%r g=%r/%r c=%r)"
+                    % (lhs.numpoly, lhs.denpoly, rhs.numpoly, rhs.denpoly, fb, fa, gb, ga, cc))
+  fg = run_filt(f(), gx) if both else None
+  chk("(f*g)(x)", f() * g(), F_ * G_, fg)
+  chk("CascadeFilter(f, g)(x)", CascadeFilter(f(), g()), F_ * G_, fg)
+  chk("ParallelFilter(f, g)(x)", ParallelFilter(f(), g()), F_ + G_, zipped(lambda p, q: p + q))
+  chk("ParallelFilter(f, g, -g)(x)", ParallelFilter(f(), g(), -g()), F_, fx)
+  chk("ParallelFilter(g, f, -g)(x)", ParallelFilter(g(), f(), -g()), F_, fx)
+  # quotients: g's numerator starts at delay 0 by construction, so 1/g is causal
+  quot = f() / g()
+  chk("(f/g)(x)", quot, F_ / G_)
+  inv = chk("(1/g)(x)", 1 / g(), G_.inv())
+  chk("(g/g)(x)", g() / g(), RF({0: 1}), list(x))
+  chk("((f/g)*g)(x)", (f() / g()) * g(), F_, fx)
+  chk("(g*(f/g))(x)", g() * (f() / g()), F_, fx)
+  chk("CascadeFilter(f/g, g)(x)", CascadeFilter(f() / g(), g()), F_, fx)
+  chk("CascadeFilter(g, 1/g)(x)", CascadeFilter(g(), 1 / g()), RF({0: 1}), list(x))
+  if both and prints_exactly(quot):
+    if run_filt(f() / g(), gx) != fx:
+      raise Violation("(f/g)(g(x)) = %r but f(x) = %r (f=%r/%r g=%r/%r x=%r)"
+                      % (run_filt(f() / g(), gx), fx, fb, fa, gb, ga, x))
+  if inv is not None and gx is not None and run_filt(1 / g(), gx) != list(x):
+    raise Violation("(1/g)(g(x)) = %r, not x = %r (g=%r/%r)" % (run_filt(1 / g(), gx), x, gb, ga))
+  # labels: measured on the data, not on the construction
+  labels = ["kind:" + c["kind"]]
+  tn = lambda l: trim(dict(enumerate(F(v) for v in l)))
+  nfb, nfa, ngb, nga = tn(fb), tn(fa), tn(gb), tn(ga)
+  neg = lambda p: p_scale(p, -1)
+  if nfa == nga:
+    plus, minus = near_cancel(nfb, ngb), near_cancel(nfb, neg(ngb))
+    route = "shared denominator"
+  else:
+    plus = near_cancel(p_mul(nfb, nga), p_mul(ngb, nfa))
+    minus = near_cancel(p_mul(nfb, nga), neg(p_mul(ngb, nfa)))
+    route = "different denominators"
+  if plus or minus:
+    labels += ["nearly cancelling coefficients", "nearly cancelling, " + route,
+               "nearly cancelling, " + ("ints" if c["kind"] == "bigint" else "Fractions")]
+  if near_cancel(nfb, p_scale(nfa, F(cc))):
+    labels.append("f + c nearly cancels")
+  gain = quot.denpoly[0]
+  if isinstance(gain, F) and gain.denominator != 1:
+    labels.append("gain of f/g is a Fraction p/q")
+    if prints_exactly(quot) and fx is not None and len(x) >= 1:
+      labels.append("gain p/q, output compared")
+  lead = gb[0]
+  if isinstance(lead, F) and lead.denominator != 1:
+    labels.append("divisor leads with a Fraction p/q")
+  if ran[0] >= 20:
+    labels.append("outputs compared")
+  order_of = lambda b, a: max(max(tn(b) or [0]), max(tn(a) or [0]))
+  return {"nontrivial": order_of(fb, fa) >= 1 and order_of(gb, ga) >= 1 and (fb, fa) != (gb, ga),
+          "labels": labels}
+
+
 # ---------------------------------------------------------------- linearize (fractional delays)
 def strat_lin(tier):
   frac = st.sampled_from([.5, .25, .75, 1.5, 2.25, 0.125, 3.5])
@@ -757,6 +975,11 @@ CLAUSES = [
          doc="CascadeFilter == product, ParallelFilter == sum: outputs and numpoly/denpoly by cross-multiplication"),
   Clause("long_filters", strat_longf, run_longf, quick=40, thorough=600,
          doc="filters with 34..44 taps and Fraction coefficients: product / sum / cascade / parallel polynomials stay exact"),
+  Clause("wide_coefficients", strat_wide, run_wide, quick=500, thorough=10000,
+         floors={"nearly cancelling coefficients": .12, "nearly cancelling, ints": .04, "nearly cancelling, Fractions": .04,
+                 "nearly cancelling, different denominators": .025, "f + c nearly cancels": .015,
+                 "gain p/q, output compared": .06, "outputs compared": .2},
+         doc="+ - * / cascade parallel on big-int, plain-Fraction and nearly cancelling exact coefficients: polynomials always, outputs when every coefficient prints exactly"),
   Clause("linearize", strat_lin, run_lin, quick=500, thorough=8000,
          floors={"fractional tap lands on an integer term": .1},
          doc="linearize(): fractional delays become the two neighbouring integer taps, additively and independently of term order"),
